@@ -223,6 +223,12 @@ def gen_pool_cases(rng, tier):
         k = rng.choice([0, npairs - 1, rng.randint(0, npairs - 1), rng.randint(0, npairs - 1)])
         mode = rng.choice(["pair", "pair", "call"])
         yield Case("distfail", [rows_str(rows), c, k, mode, WATCH_MS], c >= 2, "distfail-%s" % mode)
+    # every worker fails early while far more than the channel capacity (100 pairs) is still to be sent: the producer
+    # must still be drained and the call must return
+    for n, c, k in ([(16, 1, 0), (20, 1, 1), (20, 4, 5), (24, 8, 3), (40, 8, 100)] if quick else
+                    [(n, c, k) for n in (16, 20, 24, 40) for c in (1, 2, 4, 8, 16) for k in (0, 1, 5, 50)]):
+        rows = rand_alignment(rng, nrows=n, ncols=8, plain=True)
+        yield Case("distfail", [rows_str(rows), c, k, "call", WATCH_MS], True, "distfail-all-workers-early")
     for _ in range(4 if quick else 20):
         n = rng.choice([3, 5])
         rows = rand_alignment(rng, nrows=n, ncols=6, plain=True)
